@@ -1135,6 +1135,29 @@ type treeVocabT struct {
 	urlparams []string
 	urlKinds  map[string]reflect.Kind
 	commands  []string
+	// command-line flags registered by parseFlags
+	flagBools, flagInts, flagFloats, flagStrings []string
+}
+
+// treeFlag returns one command-line argument built from a flag of the tree.
+func treeFlag(t *simrt.Tape, strs []string) string {
+	v := treeVocab()
+	K := simrt.KGen
+	pick := func(l []string) string {
+		if len(l) == 0 {
+			return "cum"
+		}
+		return l[t.Choose(K, len(l))]
+	}
+	switch t.Choose(K, 4) {
+	case 0:
+		return "-" + pick(v.flagBools) + []string{"", "=true", "=false"}[t.Choose(K, 3)]
+	case 1:
+		return "-" + pick(v.flagInts) + "=" + []string{"0", "1", "-1", "30", "99999999999999999999"}[t.Choose(K, 5)]
+	case 2:
+		return "-" + pick(v.flagFloats) + "=" + []string{"0", "0.5", "-1", "1e308", "x"}[t.Choose(K, 5)]
+	}
+	return "-" + pick(v.flagStrings) + "=" + strs[t.Choose(K, len(strs))]
 }
 
 var treeVocabCache *treeVocabT
@@ -1159,6 +1182,34 @@ func treeVocab() *treeVocabT {
 	for name := range pprofCommands {
 		v.commands = append(v.commands, name)
 	}
+	// the command-line flags the tree registers, by type
+	func() {
+		defer func() { recover() }()
+		fl := newFlags([]string{"prof.pb.gz"})
+		parseFlags(&plugin.Options{Flagset: fl, UI: &simUI{}})
+		for n := range fl.bools {
+			v.flagBools = append(v.flagBools, n)
+		}
+		for n := range fl.ints {
+			v.flagInts = append(v.flagInts, n)
+		}
+		for n := range fl.flts {
+			v.flagFloats = append(v.flagFloats, n)
+		}
+		for n := range fl.strs {
+			if n == "http" {
+				continue // would start a real listener where no HTTPServer seam is installed
+			}
+			v.flagStrings = append(v.flagStrings, n)
+		}
+		for n := range fl.lists {
+			v.flagStrings = append(v.flagStrings, n)
+		}
+	}()
+	sort.Strings(v.flagBools)
+	sort.Strings(v.flagInts)
+	sort.Strings(v.flagFloats)
+	sort.Strings(v.flagStrings)
 	sort.Strings(v.options)
 	sort.Strings(v.urlparams)
 	sort.Strings(v.commands)
